@@ -666,7 +666,12 @@ class Program:
                 cs.external = r[1]
                 return cs
             if r[0] == "local":
-                # calling a local value (callable parameter, lambda in a table)
+                # calling a local value: a function taken from a dispatch table or kept in a local (may-call: every
+                # candidate); otherwise a callable parameter / a lambda in a table
+                cands = self._local_function_values(f, r[2]) if isinstance(fn, ast.Name) else []
+                if cands:
+                    cs.callees.extend(cands)
+                    return cs
                 cs.method = "<call-local:%s>" % r[2]
                 return cs
             if r[0] == "global":
@@ -692,6 +697,79 @@ class Program:
             cs.method = "<call-subscript>"
             return cs
         return cs
+
+    def _local_function_values(self, f: Func, name: str, depth=0):
+        """Package functions a local of ``f`` may hold: assigned from a function name, taken from a literal table
+        (tuple / list / dict, also of tuples) by a `for` loop, a subscript or `.get`."""
+        if depth > 3 or name in f.params:
+            return []
+        out = []
+
+        def funcs_in(expr, pos=None):
+            """Functions named in a literal container (at tuple position ``pos`` of its rows, if given)."""
+            if isinstance(expr, ast.Name):
+                r = self.resolve_expr(f, f.module, expr)
+                if r and r[0] == "func":
+                    return [r[1]]
+                if r and r[0] == "local" and expr.id != name:
+                    d = [n.value for n in f.own_nodes() if isinstance(n, ast.Assign) and len(n.targets) == 1 and isinstance(n.targets[0], ast.Name) and n.targets[0].id == expr.id]
+                    return funcs_in(d[0], pos) if len(d) == 1 else []
+                if r and r[0] == "global" and len(r) > 3 and getattr(r[3], "value", None) is not None:
+                    return funcs_in(r[3].value, pos)
+                return []
+            if isinstance(expr, (ast.Tuple, ast.List)):
+                res = []
+                for e in expr.elts:
+                    if pos is not None and isinstance(e, (ast.Tuple, ast.List)):
+                        if pos < len(e.elts):
+                            res.extend(funcs_in(e.elts[pos]))
+                    elif pos is None:
+                        res.extend(funcs_in(e))
+                return res
+            if isinstance(expr, ast.Dict):
+                res = []
+                for v in expr.values:
+                    if pos is not None and isinstance(v, (ast.Tuple, ast.List)):
+                        if pos < len(v.elts):
+                            res.extend(funcs_in(v.elts[pos]))
+                    elif pos is None:
+                        res.extend(funcs_in(v))
+                return res
+            return []
+
+        for n in f.own_nodes():
+            if isinstance(n, ast.Assign) and len(n.targets) == 1:
+                t, v = n.targets[0], n.value
+                if isinstance(t, ast.Name) and t.id == name:
+                    if isinstance(v, ast.Name):
+                        out.extend(funcs_in(v))
+                    elif isinstance(v, ast.Subscript):
+                        out.extend(funcs_in(v.value))
+                    elif isinstance(v, ast.Call) and isinstance(v.func, ast.Attribute) and v.func.attr == "get":
+                        out.extend(funcs_in(v.func.value))
+                        for a in v.args[1:]:
+                            out.extend(funcs_in(a))
+            if isinstance(n, (ast.For, ast.comprehension)):
+                t, it = n.target, n.iter
+                if isinstance(it, ast.Call) and isinstance(it.func, ast.Attribute) and it.func.attr in ("items", "values") and not it.args:
+                    base = it.func.value
+                    if it.func.attr == "values" and isinstance(t, ast.Name) and t.id == name:
+                        out.extend(funcs_in(base))
+                    elif it.func.attr == "items" and isinstance(t, ast.Tuple) and len(t.elts) == 2 and isinstance(t.elts[1], ast.Name) and t.elts[1].id == name:
+                        out.extend(funcs_in(base))
+                    continue
+                if isinstance(t, ast.Name) and t.id == name:
+                    out.extend(funcs_in(it))
+                elif isinstance(t, (ast.Tuple, ast.List)):
+                    for i, e in enumerate(t.elts):
+                        if isinstance(e, ast.Name) and e.id == name:
+                            out.extend(funcs_in(it, pos=i))
+        seen, uniq = set(), []
+        for g in out:
+            if g.qualname not in seen:
+                seen.add(g.qualname)
+                uniq.append(g)
+        return uniq
 
     def callees_closure(self, roots, include_nested=True, follow=None):
         """Functions reachable from ``roots`` over resolved call edges.
